@@ -36,6 +36,11 @@ fn case_t<T: Sc>(rng: &mut Rng, case: u64, out: &mut CaseOut) {
         }
     };
     out.seen("class", class);
+    out.count(if sf.stats.is_raw() { "fits_of_builder_models_without_wrapper" } else { "fits_through_the_forwarding_wrapper" });
+    let invariant_first = matches!(&spec.model, ModelKind::Built(ms) | ModelKind::Hand(ms) if ms.basis.iter().position(|b| b.params().is_empty()).is_some_and(|i| i + 1 < ms.basis.len()));
+    if invariant_first {
+        out.count("models_with_a_parameter_free_function_before_other_functions");
+    }
     if case < 16 {
         out.sample(json!({"class": class, "N": sf.n, "M": sf.m, "P": sf.p, "degrees_of_freedom": sf.nu, "alpha_hat": sf.alpha, "scalar": T::NAME}));
     }
